@@ -106,7 +106,51 @@ class ClientWorld(object):
         pass
 
     def extra_events(self):
-        return []
+        return self.cluster_event_alts()
+
+    def cluster_event_alts(self):
+        """Cluster-side events (leader move, broker restart, re-address ...) offered as fault deviations, each
+        usable once per run: menu["cluster_events"] = [["move", topic, partition, broker], ["restart", broker],
+        ["readdress", broker, host, port], ["phantom_joins", group], ...]"""
+        evs = self.menu.get("cluster_events")
+        if not evs:
+            return []
+        used = getattr(self, "_cluster_used", None)
+        if used is None:
+            used = self._cluster_used = set()
+        out = []
+        for i, ev in enumerate(evs):
+            if i not in used:
+                out.append(("cluster:%d" % i, F))
+        return out
+
+    def do_cluster_event(self, i):
+        from twisted.internet import error
+        ev = self.menu["cluster_events"][i]
+        self._cluster_used.add(i)
+        kind = ev[0]
+        cl = self.cluster
+        if kind == "move":
+            cl.move_leader((ev[1], ev[2]), ev[3])
+        elif kind in ("restart", "readdress"):
+            bid = ev[1]
+            if kind == "readdress":
+                cl.brokers[bid]["host"], cl.brokers[bid]["port"] = ev[2], ev[3]
+            for c in list(self.net.open_conns()):
+                if c.server is not None and c.server.broker_id == bid:
+                    c.close(error.ConnectionLost("broker %d restarted" % bid))
+        elif kind == "coordinator":
+            cl.coordinator[ev[1]] = ev[2]
+        elif kind in ("phantom_joins", "phantom_leaves", "evict"):
+            from ref import simgroup
+            {"phantom_joins": simgroup.phantom_joins, "phantom_leaves": simgroup.phantom_leaves,
+             "evict": simgroup.evict_real}[kind](cl, ev[1])
+        elif kind == "append":
+            log = cl.logs[(ev[1], ev[2])]
+            log.append_plain(None, ev[3].encode("latin-1"), magic=log.magic, timestamp=7)
+            cl.wake_fetches((ev[1], ev[2]))
+        else:
+            raise ValueError(ev)
 
     def mid_events(self, io_default):
         """Events ordered after network I/O but before application calls and timers."""
@@ -306,6 +350,8 @@ class ClientWorld(object):
                 op = self.script[self.script_pos]
                 self.script_pos += 1
                 self.do_app(op)
+            elif kind == "cluster":
+                self.do_cluster_event(int(parts[1]))
             else:
                 self.do_extra(label)
         except Exception as e:
@@ -336,6 +382,70 @@ class ClientWorld(object):
     def on_reactor_error(self, label, e, tb):
         self.viol("reactor-callback", "exception-escapes-into-reactor:%s:%s" % (label.split(":")[0], type(e).__name__),
                   "event %s: %r escaped from afkak into the reactor\n%s" % (label, e, tb[-1200:]))
+
+    # ------------------------------------------------------------------ C04: negotiated versions on the wire
+    def c04_frame(self, req):
+        p = req.parsed
+        if p is None:
+            self.viol("wire-grammar", "neg:request-does-not-parse", "unparseable request: %s" % req.grammar_error)
+            return
+        name = rk.API_NAMES.get(p["api_key"], str(p["api_key"]))
+        if req.grammar_error:
+            self.viol("wire-grammar", "neg:request-does-not-parse:%s-v%d" % (name, p["api_version"]),
+                      "%s v%d request rejected by the reference parser: %s" % (name, p["api_version"],
+                                                                                req.grammar_error))
+        if p["api_key"] in (rk.PRODUCE, rk.FETCH):
+            table = self.cluster.brokers[req.broker]["versions"]
+            v = p["api_version"]
+            if isinstance(table, str):
+                if v != 0:
+                    self.viol("negotiation", "neg:no-fallback-to-v0-without-discovery:%s" % name,
+                              "%s v%d sent to a broker that does not implement ApiVersions" % (name, v))
+            else:
+                rng = [(lo, hi) for k, lo, hi in table if k == p["api_key"]]
+                if rng and not (rng[0][0] <= v <= rng[0][1]):
+                    self.viol("negotiation", "neg:version-not-advertised:%s" % name,
+                              "%s v%d sent, the broker advertised %r" % (name, v, rng[0]))
+            if v not in (0, 2):
+                self.viol("negotiation", "neg:version-not-implemented:%s" % name,
+                          "%s v%d sent; afkak implements v0 and v2" % (name, v))
+
+    # ------------------------------------------------------------------ C08: stale routing must be re-resolved
+    def c08_frame(self, req):
+        """Call from on_frame: a produce/fetch for a partition whose routing was invalidated must be preceded by a
+        metadata request."""
+        p = req.parsed
+        if p is None or p["body"] is None:
+            return
+        st = self.__dict__.setdefault("_c08", {"stale": {}, "last_meta": -1, "n": 0})
+        st["n"] += 1
+        if p["api_key"] == rk.METADATA:
+            st["last_meta"] = st["n"]
+            return
+        if p["api_key"] in (rk.PRODUCE, rk.FETCH):
+            for t in p["body"]["topics"]:
+                for part in t["partitions"]:
+                    tp = (t["topic"], part["partition"])
+                    if tp in st["stale"] and st["last_meta"] < st["stale"][tp]:
+                        self.viol("self-heal", "request-to-invalidated-partition-without-metadata-refresh",
+                                  "a %s for %s/%d was sent although its routing had been invalidated (error 3/6 or "
+                                  "failed send) and no metadata request was made since" % (
+                                      rk.API_NAMES[p["api_key"]], tp[0], tp[1]))
+                    st["stale"].pop(tp, None)
+
+    def c08_event(self):
+        """Call from on_event: note answers with not-leader / unknown-partition delivered to the client."""
+        st = self.__dict__.setdefault("_c08", {"stale": {}, "last_meta": -1, "n": 0})
+        for r in self.cluster.journal:
+            if r.answered and not getattr(r, "_c08", False) and r.parsed and r.parsed["body"] is not None:
+                r._c08 = True
+                if r.answer is None or r.parsed["api_key"] not in (rk.PRODUCE, rk.FETCH):
+                    continue
+                for t in r.answer["topics"]:
+                    for part in t["partitions"]:
+                        if part["error"] in (3, 6):
+                            st["n"] += 1
+                            st["stale"][(t["topic"], part["partition"])] = st["n"]
 
     # ------------------------------------------------------------------ explorer protocol defaults
     def finish(self, horizon):
